@@ -10,6 +10,8 @@ from sa.tables import OPTS
 
 # property -> [(module suffix, class or None, names or None (= every non-stub function / method))]
 PLAN = {
+    "C13": [("core.infrastructure", "ShapedTensor", None), ("core.infrastructure", "RecordTensor", ["dt:setter", "duration:setter", "inclusive:setter", "reconstrain", "constraints:getter", "recordsz:getter"])],
+    "C01": [("core.infrastructure", "RecordTensor", None), ("core.infrastructure", None, ["_unwind_ptr", "_unwind_tensor_ptr"])],
     "C03": [("neural.neurons.linear", c, None) for c in ("LIF", "ALIF", "GLIF1", "GLIF2")] +
            [("neural.neurons.nonlinear", c, None) for c in ("QIF", "Izhikevich", "EIF", "AdEx")] +
            [("neural.neurons.mixins", c, None) for c in ("VoltageMixin", "RefractoryMixin", "SpikeRefractoryMixin", "AdaptiveCurrentMixin", "AdaptiveThresholdMixin")] +
@@ -26,7 +28,6 @@ PLAN = {
     "C09": [("learn.trainers.homeostasis", None, None)],
     "C10": [("neural.modeling", None, None), ("functional.bounding", None, None)],
     "C12": [("core.infrastructure", "Module", None), ("learn.classifiers.simple", None, None)],
-    "C13": [("core.infrastructure", "ShapedTensor", None), ("core.infrastructure", "RecordTensor", ["dt:setter", "duration:setter", "inclusive:setter", "reconstrain", "constraints:getter", "recordsz:getter"])],
     "C14": [("neural.mixins", None, None), ("neural.base", "InfernoNeuron", None)],
     "C15": [("observe.pooling", None, None), ("learn.base", None, None), ("observe.monitors", None, None)],
     "C16": [("core.infrastructure", c, None) for c in ("Hook", "ContextualHook", "StateHook")] + [("neural.hooks", None, None), ("_internal.utils", None, ["rgetattr", "rsetattr"])],
@@ -44,7 +45,7 @@ EXCLUDE = {("Updater", "forward"): "C10.c accepts any value-equivalent write-bac
            ("SpikeRefractoryMixin", "spike"): "behind known finding D25",
            ("Observable", "add_monitor"): "behind known finding D19"}
 MOVE = {("Conv2D", "selector"): "C06", ("LinearDense", "selector"): "C06", ("LinearDirect", "selector"): "C06", ("LinearLateral", "selector"): "C06",
-        (None, "normalize"): "C16"}
+        (None, "normalize"): "C16", ("RecordTensor", "select"): "C02", ("RecordTensor", "insert"): "C02"}
 
 import signal
 
@@ -57,7 +58,8 @@ signal.signal(signal.SIGALRM, _alarm)
 P = Program("/repo")
 reg, dropped = {}, []
 tdir = os.path.join(VERIF, "sa", "tables")
-existing_manual = {"RecordTensor.read", "RecordTensor.write", "RecordTensor.readrange", "RecordTensor.writerange", "RecordTensor.select", "RecordTensor.insert"}
+existing_manual = set()
+seen_funcs = set()
 
 
 def kind_of(f):
@@ -89,12 +91,13 @@ for prop, plan in PLAN.items():
             if (cn, f.name) in EXCLUDE:
                 continue
             base = f"{cn + '.' if cn else ''}{f.name}{'' if k == 'plain' else '.' + k}"
-            if base in existing_manual:
+            if base in existing_manual or (modsuf, cn, f.name, k) in seen_funcs:
                 continue
+            seen_funcs.add((modsuf, cn, f.name, k))
             node = ast.parse(ast.unparse(f.node)).body[0]
             if node.body and isinstance(node.body[0], ast.Expr) and isinstance(node.body[0].value, ast.Constant):
                 node.body = node.body[1:]
-            node.decorator_list, node.returns, node.name = [], None, "spec"
+            node.returns, node.name = None, "spec"
             for a in node.args.posonlyargs + node.args.args + node.args.kwonlyargs:
                 a.annotation = None
             if node.args.vararg:
